@@ -84,6 +84,16 @@ fn escape_table() -> Vec<String> {
         v.push(format!(".orig x3000\n.stringz \"{}\"\n.end", "é".repeat(n / 2)));
         v.push(format!(".stringz \"{}\"", "\\n".repeat(n)));
     }
+    // long lines of multi-byte characters in every alignment around the sizes an implementation might cut or buffer at
+    for limit in [32_767usize, 32_768, 65_535, 65_536, 131_070, 131_071, 131_072, 262_143, 262_144] {
+        for (ch, w) in [("é", 2usize), ("中", 3), ("🦀", 4)] {
+            for pre in 0..w {
+                let body = format!("{}{}", "a".repeat(pre), ch.repeat(limit / w + 6));
+                v.push(format!(".stringz \"{body}\""));
+                if pre == 0 { v.push(format!("; {body}\nHALT")); v.push(format!(".stringz \"{body}")); }
+            }
+        }
+    }
     // numbers
     for n in 1..=40usize {
         let d = "9".repeat(n);
